@@ -36,6 +36,10 @@ RULE = RULE + '; GENERATED scenarios besides the listed ones: the PAIR MATRIX (e
 GENDERS = 'mf'
 
 
+_SYNTH16 = os.path.join(os.path.dirname(os.path.abspath(__file__)), 'c16_synth')
+_RECLIMIT = sys.getrecursionlimit()
+
+
 def _stdout_guard():
     return contextlib.redirect_stdout(io.StringIO())
 
@@ -62,11 +66,53 @@ def _module_snaps():
     return _SNAPS
 
 
+def _probe():
+    """Process-wide settings a call may adjust around its work (saved, installed, restored): sampled at every yield point of
+    a lone run to find the window in which they differ from their value at the start."""
+    import decimal
+    return (sys.getrecursionlimit(), id(jsonschema.validators.RefResolver), os.getcwd(), id(sys.stdout) if False else 0,
+            decimal.getcontext().prec)
+
+
+def setting_windows(sc):
+    """Per thunk of scenario `sc`: the yield indices at which some process-wide setting differs from its value at the call's
+    first line (empty for calls that leave them alone - all of today's)."""
+    wins = []
+    with _stdout_guard():
+        for t in sc.thunks:
+            sc.setup()
+            r_, n_, (lines, probes) = dsched.solo(t, record_lines=True, probe=_probe)
+            base = probes[0] if probes else None
+            wins.append([i for i, v in enumerate(probes) if v != base])
+    return wins
+
+
+def window_doubles(sc, n, do, ctx, cap=300):
+    """Two pre-emptions aimed at save / install / restore of process-wide settings: a is stopped while its setting is
+    installed, b runs until ITS setting is installed, a resumes and finishes (restoring), then b goes on."""
+    wins = setting_windows(sc)
+    if not any(wins):
+        return
+    ctx.label('calls-adjusting-process-wide-settings')
+    for a in range(n):
+        for b in range(n):
+            if a == b or not wins[a] or not wins[b]:
+                continue
+            wa = wins[a][::max(1, len(wins[a]) // 20)][:20]
+            wb = wins[b][::max(1, len(wins[b]) // 15)][:15]
+            for k1 in wa:
+                for k2 in wb:
+                    do([(a, k1, b), (b, k2, a)], a)
+    ctx.label('setting-window-double-preemptions')
+
+
 def reset_cold():
     for sn in _module_snaps():
         sn.restore()
     dsched.cooperative_locks('athlib')
     jsonschema.validators.RefResolver = _JS_RESOLVER   # process-wide setting of a third-party module the library adjusts
+    if sys.getrecursionlimit() != _RECLIMIT:
+        sys.setrecursionlimit(_RECLIMIT)               # process-wide interpreter setting: as at import
     mod('athlon_score')._scoring_objects = None
     mod('hungarian_score')._table = None
     mod('sportshall_score')._DB = None
@@ -187,6 +233,9 @@ def thunks_table():
         'va-event': lambda: u.valid_against_schema('sample-jsons/event.json', 'json/event.json'),
         'va-competition': lambda: u.valid_against_schema('sample-jsons/competition.json', 'json/competition.json'),
         'sv-race-7': lambda: u.schema_valid('json/race.json', validator=jsonschema.Draft7Validator),
+        # a valid document nested 300 levels deep (more than the default recursion limit allows: whatever a lone caller gets -
+        # today RecursionError - every concurrent caller gets too; process-wide interpreter settings are not per caller)
+        'va-deep': lambda: u.valid_against_schema(os.path.join(_SYNTH16, 'deep_doc.json'), os.path.join(_SYNTH16, 'recursive_schema.json')),
     }
 
 
@@ -248,6 +297,8 @@ SCENARIOS = [
     # documents validated against schemas with references, uncached, side by side
     ('va-race-athlete', ['va-race', 'va-athlete'], 0),
     ('va-race-event', ['va-race', 'va-event'], 0),
+    ('va-deep-athlete', ['va-athlete', 'va-deep'], 0),
+    ('va-deep-deep', ['va-deep', 'va-deep'], 0),
     # the other scoring systems and helpers the library offers (no shared state today: any they acquire shows here)
     ('tyrving-hand-auto', ['tyr-M15-100-hand', 'tyr-M15-100-auto'], 0),
     ('tyrving-diff', ['tyr-F12-HJ', 'tyr-F14-800'], 0),
@@ -324,7 +375,9 @@ class Scenario(object):
         out = []
         for t in self.thunks:
             self.setup()
-            r, n, _ = dsched.solo(t)
+            r, n, _ = dsched.solo(t)            # fully traced: the number of yield points
+            self.setup()
+            r = dsched.solo_result(t)           # the outcome to compare with (run as the tail of a scheduled run is)
             out.append((r, n))
         return out
 
@@ -487,6 +540,8 @@ def _shard(ctx, payload):
                     for k2 in bb:
                         do([(a, k1, b), (b, k2, a)], a)
         ctx.label('entry-body-double-preemptions')
+    if not warm or thorough:
+        window_doubles(sc, n, do, ctx)
     # two pre-emptions: a runs to k1, b runs to k2, back to a (then the rest)
     pairs = []
     for a in range(n):
@@ -586,6 +641,7 @@ def explore(ctx, rng, names, prefix, fill, per, single_cap):
                     do([(a, k1, b), (b, k2, a)], a)
             for _ in range(per):
                 do([(a, rng.randrange(counts[a] + 1), b), (b, rng.randrange(counts[b] + 1), a)], a)
+    window_doubles(sc, n, do, ctx)
 
 
 def gen_shard(ctx, payload):
